@@ -6,6 +6,7 @@ package sym
 import (
 	"fmt"
 	"go/types"
+	"strings"
 
 	"golang.org/x/tools/go/ssa"
 )
@@ -127,6 +128,13 @@ var zzIntrinsics = map[string]externalFn{
 	// engine side trusts the specification-level assertion next to them.
 	"zzTextRoundTrips": func(fr *frame, a []value) value { return true },
 	"zzAttrRoundTrips": func(fr *frame, a []value) value { return true },
+	"zzSquash": func(fr *frame, a []value) value {
+		i := fr.i
+		if c, ok := a[0].(string); ok {
+			return strings.Join(strings.Fields(c), "")
+		}
+		return i.mkStr(i.L.mapBytes(i.strOf(a[0]), map[byte]string{' ': "", '\t': "", '\n': "", '\v': "", '\f': "", '\r': ""}))
+	},
 	"zzContains": func(fr *frame, a []value) value {
 		i := fr.i
 		return i.mkBool(i.L.contains(i.strOf(a[0]), a[1].(string)))
